@@ -1,5 +1,6 @@
 import Insim.Drv.Util
 import Insim.Model.Codepage
+import Insim.Model.MsoText
 import Insim.Gen.Codepages
 namespace Insim.Drv.C10
 open Insim Insim.Drv Insim.Cp
@@ -29,6 +30,12 @@ def parseEnt (ent : String) : Option (Nat × List (Mk × Option Bytes)) :=
 def parseInline (s : String) : Option (List (Nat × List (Mk × Option Bytes))) :=
   if s = "-" then some [] else (s.splitOn ";").mapM parseEnt
 
+def cpOfTable (tbl : List (Nat × List (Mk × Option Bytes))) : Mk → CP := fun m =>
+  { enc := fun c => match tbl.find? (fun e => e.1 == c) with
+      | some e => (match e.2.find? (fun p => p.1 == m) with | some p => p.2 | none => none)
+      | none => none,
+    dec := fun b => b }
+
 def segStr : Seg → String
   | .dec m bs => String.ofList [Char.ofNat m.byte] ++ ":" ++ toHex bs
   | .keep8 => "8"
@@ -45,6 +52,25 @@ def handle (ws : List String) : Option String :=
           dec := fun b => b }
       let order := Gen.Codepages.order.filterMap mkOfByte
       some (toHex (toBytes cp order s))
+    | _, _ => some "bad-op"
+  -- IS_MSO as typed values: (textstart, msg) -> TextStart byte and text bytes, with the encoder table given inline
+  | ["mso.wr", ts, t, inl] =>
+    match ts.toNat?, parseCps t, parseInline inl with
+    | some ts, some s, some tbl =>
+      let order := Gen.Codepages.order.filterMap mkOfByte
+      (match Text.msoWrite (cpOfTable tbl) order ts s with
+       | some (w, body) => some (toString w ++ " " ++ (if body.isEmpty then "-" else toHex body))
+       | none => some "refused")
+    | _, _, _ => some "bad-op"
+  -- … and back: the decoding plan of the name part and of the whole text (resolved by the harness with encoding_rs)
+  | ["mso.rd", ts, h] =>
+    match ts.toNat?, (if h = "-" then some [] else parseHex h) with
+    | some ts, some body =>
+      (match Text.msoReadPlan ts body with
+       | some (pn, pw) =>
+         let pl := fun (p : List Seg) => if p.isEmpty then "-" else String.intercalate "|" (p.map segStr)
+         some ("msoplan " ++ pl pn ++ " # " ++ pl pw)
+       | none => some "err")
     | _, _ => some "bad-op"
   | ["cp.dec", h] =>
     match parseHex h with
